@@ -360,9 +360,14 @@ def rule_dlog_loop(ctx):
       probs.append("loop runs %r times, fewer than the n - 1 elements of the multiplicative group" % (trips,))
     acc_h = as_poly(vis["head"].env.get(ACC))
     for kind, val, s, since, v in info["body_paths"]:
+      hit = any(f_[0] == "cmp" and f_[1] == "Eq" and {repr(as_poly(f_[2])), repr(as_poly(f_[3]))} == {repr(acc_h), repr(value)} for f_ in s.facts)
       if kind == "return":
-        if not (isinstance(val, Const) and val.v is True and any(f_[0] == "cmp" and f_[1] == "Eq" and {repr(as_poly(f_[2])), repr(as_poly(f_[3]))} == {repr(acc_h), repr(value)} for f_ in s.facts)):
+        if not (isinstance(val, Const) and val.v is True and hit):
           probs.append("True is not returned exactly when the current power equals the value")
+      elif kind == "break":
+        # `found = True; break` ... `return found`: the loop is left exactly at a hit
+        if not hit:
+          probs.append("the enumeration is left before the value was found")
       elif kind in ("fall", "continue"):
         acc_e = as_poly(s.env.get(ACC))
         if acc_e != sym.mk("mod", acc_h * sym.mk("mod", base, n), n):
@@ -370,7 +375,11 @@ def rule_dlog_loop(ctx):
         if not any(f_[0] == "cmp" and f_[1] == "NotEq" for f_ in s.facts):
           probs.append("comparison does not precede the multiplication")
   after = [e for e in w.events if e.kind == "return" and e.node is not None and not e.state.tags]
-  if not (after and all(isinstance(e.data["value"], Const) and e.data["value"].v is False for e in after)):
+  def came_from_hit(e):
+    return any(f_[0] == "cmp" and f_[1] == "Eq" and repr(value) in (repr(as_poly(f_[2])), repr(as_poly(f_[3]))) for f_ in e.state.facts)
+  falses = [e for e in after if isinstance(e.data["value"], Const) and e.data["value"].v is False and not came_from_hit(e)]
+  trues = [e for e in after if isinstance(e.data["value"], Const) and e.data["value"].v is True and came_from_hit(e)]
+  if not falses or len(falses) + len(trues) != len(after):
     probs.append("does not return False after the whole group was enumerated")
   ctx.record(R, f.where, "enumerates base^0 .. base^(n-2), compare-then-multiply", not probs, "; ".join(sorted(set(probs))) or "covers the subgroup generated by base for prime n")
   f = repo.func("roca", "ROCAKeyVariantDetector._QuadraticResidues")
@@ -475,15 +484,78 @@ def rule_keypair(ctx):
   n = modulus_of(K) if K is not None else None
   gens = b.calls("cls:keypair_generator.Generator")
   gk = [e for e in b.events if e.kind == "call" and e.data["name"] == "meth:generate_key"]
-  ok1 = False
-  for e in b.events:
-    if e.kind == "assign" and e.data["name"] == "n_msb" and n is not None:
-      ok1 = as_poly(e.data["value"]) == sym.mk("shr", n, sym.mk("bitlen", n) - 64)
-  memb = any(f_[0] == "cmp" and f_[1] == "In" and as_poly(f_[3]) == sym.mk("attr", SELF, "_table") for e in gk for f_ in e.facts)
+  # the table key: what is tested for membership in self._table and used for the look-up is the top 64 bits of the modulus
+  TAB = sym.mk("attr", SELF, "_table")
+  keys = {repr(as_poly(f_[2])): as_poly(f_[2]) for e in gk for f_ in e.facts if f_[0] == "cmp" and f_[1] == "In" and isinstance(f_[2], Poly) and isinstance(f_[3], Poly) and f_[3] == TAB}
+  ok1 = n is not None and len(keys) == 1 and list(keys.values())[0] == sym.mk("shr", n, sym.mk("bitlen", n) - 64)
+  memb = bool(keys)
   ctx.record(R, b.where(), "table key = top 64 bits of n", ok1 and memb, "n >> (bit_length - 64), looked up in self._table" if ok1 and memb else "table key / membership test changed")
-  ok2 = "seed = bytearray([metadata[0]] + [0] * 31)" in src and "for i in range(1, len(metadata), 2):" in src and "seed[metadata[i]] = metadata[i + 1]" in src and \
-      "metadata = self._table[n_msb]" in src
-  ctx.record(R, b.where(), "seed from metadata (first byte, then (index, value) pairs)", ok2, "32-byte seed as the storage docstring specifies" if ok2 else "seed reconstruction changed")
+  # the seed handed to the generator: 32 bytes, byte 0 = metadata[0], then seed[metadata[i]] = metadata[i + 1] for i = 1, 3, 5, ... (values, not names)
+  from pcstatic import wtable
+  probs2 = []
+  KEY = list(keys.values())[0] if len(keys) == 1 else None
+  M = sym.mk("idx", TAB, KEY) if KEY is not None else None
+  pair_stores = []
+  for e in b.events:
+    if e.kind != "store" or M is None:
+      continue
+    ia = as_poly(e.data["index"]).as_atom() if isinstance(e.data["index"], Poly) else None
+    va = as_poly(e.data["value"]).as_atom() if isinstance(e.data["value"], Poly) else None
+    if ia is not None and va is not None and ia.kind == "idx" and va.kind == "idx" and as_poly(ia.args[0]) == M and as_poly(va.args[0]) == M:
+      pair_stores.append((e, as_poly(ia.args[1]), as_poly(va.args[1])))
+  if M is None or not pair_stores:
+    probs2.append("no (index, value) pairs of the table entry are written into the seed")
+  seed_vars = set()
+  for e, J, J1 in pair_stores:
+    if not (J1 - J - 1).is_zero():
+      probs2.append("a pair is not (metadata[i], metadata[i + 1])")
+    loop = None
+    for li in w.loop_info.values():
+      if isinstance(li["node"], ast.For) and any(x is e.node for x in ast.walk(li["node"])):
+        if loop is None or any(x is li["node"] for x in ast.walk(loop["node"])):
+          loop = li
+    vis = next((v_ for v_ in (loop["visits"] if loop else []) if as_poly(v_["k"]).as_atom() in J.all_atoms()), None)
+    ra = as_poly(vis["iter"]).as_atom() if vis is not None and isinstance(vis["iter"], Poly) else None
+    if ra is None or ra.kind != "range" or len(ra.args) != 3 or as_poly(ra.args[2]).as_int() != 2:
+      probs2.append("the pairs are not taken in steps of two")
+      continue
+    lo, hi = as_poly(ra.args[0]), as_poly(ra.args[1])
+    k = as_poly(vis["k"])
+    if not (J - (k * 2 + 1)).is_zero() or not (hi - lo - (sym.mk("len", M) - 1)).is_zero():
+      probs2.append("the pairs do not start at metadata[1] / do not run to the end of the entry (index %r over range(%r, %r, 2))" % (J, lo, hi))
+    for nm, hv in vis["head"].env.items():
+      if isinstance(hv, Poly) and hv == as_poly(e.data["base"]):
+        seed_vars.add((nm, id(vis)))
+        pre = vis["pre_env"].get(nm)
+        after = vis["after_env"].get(nm)
+        # initial seed: bytearray of 32 with byte 0 = metadata[0] (built in one expression, or allocated and then stored into)
+        okinit = False
+        pa_ = as_poly(pre).as_atom() if isinstance(pre, Poly) else None
+        chain = []
+        while pa_ is not None and pa_.kind == "upd":
+          chain.append((as_poly(pa_.args[1]), as_poly(pa_.args[2])))
+          pa_ = as_poly(pa_.args[0]).as_atom()
+        if pa_ is not None and pa_.kind in ("bytearray", "extcall") and "bytearray" in repr(pa_)[:40]:
+          arg = pa_.args[0] if pa_.kind == "bytearray" else pa_.args[1]
+          size = as_poly(arg).as_int() if isinstance(arg, (Poly, int)) and not isinstance(arg, bool) else None
+          if size is not None:
+            cells = [Poly.const(0)] * size
+          else:
+            cells = wtable.list_items(arg, [])
+          if cells is not None:
+            cells = list(cells)
+            for ix, vv in reversed(chain):
+              if ix.as_int() is not None and 0 <= ix.as_int() < len(cells):
+                cells[ix.as_int()] = vv
+            okinit = len(cells) == 32 and cells[0] == sym.mk("idx", M, Poly.const(0)) and all(as_poly(c_).is_zero() for c_ in cells[1:])
+        if not okinit:
+          probs2.append("the seed does not start as 32 bytes with byte 0 = metadata[0] and zeros elsewhere (%r)" % (pre,))
+        if not gens or not all(isinstance(g_.data["args"][0], Poly) and isinstance(after, Poly) and g_.data["args"][0] == after for g_ in gens):
+          probs2.append("the generator is not given the reconstructed seed")
+  if pair_stores and not seed_vars:
+    probs2.append("the pairs are not written into the seed variable")
+  ok2 = not probs2
+  ctx.record(R, b.where(), "seed from metadata (first byte, then (index, value) pairs)", ok2, "32-byte seed as the storage docstring specifies" if ok2 else "seed reconstruction changed: " + "; ".join(sorted(set(probs2))))
   ok3 = bool(gk) and n is not None and all(e.data["args"] and as_poly(e.data["args"][0]) == sym.mk("bitlen", n) for e in gk) and bool(gens)
   ctx.record(R, b.where(), "regeneration with the modulus' own bit length", ok3, "Generator(seed).generate_key(n.bit_length())" if ok3 else "regeneration size is not n.bit_length()")
   init = b.cls.methods.get("__init__")
